@@ -31,12 +31,22 @@ type c19Case struct {
 
 var c19MethodForms = []string{"", "empty", "binary"}
 
+// method variants: 0 = no METHOD, 1..3 = METHOD present in the three forms, 4 = no METHOD property although the
+// property map holds the key with an empty list (what removing the property in place leaves behind), 5 = the
+// same with a nil list
+const c19MV = 6
+
 var c19PerComp = len(c19Types) * len(c19UIDs)
 
 func c19Decode(idx int, l int, mv int) c19Case {
-	c := c19Case{Method: mv > 0}
-	if mv > 0 {
+	c := c19Case{Method: mv > 0 && mv <= 3}
+	switch {
+	case mv >= 1 && mv <= 3:
 		c.MethodForm = c19MethodForms[mv-1]
+	case mv == 4:
+		c.MethodForm = "key-with-empty-list"
+	case mv == 5:
+		c.MethodForm = "key-with-nil-list"
 	}
 	for k := 0; k < l; k++ {
 		d := idx % c19PerComp
@@ -62,6 +72,14 @@ func c19Build(c c19Case) *ical.Calendar {
 			cal.Props.Set(p)
 		default:
 			cal.Props.SetText(ical.PropMethod, "REQUEST")
+		}
+	}
+	if !c.Method {
+		switch c.MethodForm {
+		case "key-with-empty-list":
+			cal.Props[ical.PropMethod] = []ical.Prop{}
+		case "key-with-nil-list":
+			cal.Props[ical.PropMethod] = nil
 		}
 	}
 	for _, s := range c.Comps {
@@ -199,8 +217,8 @@ func init() {
 			}
 			l := l
 			off := int64(base)
-			r.Parallel(n*4, func(i int, s *engine.Shard) {
-				c := c19Decode(i/4, l, i%4)
+			r.Parallel(n*c19MV, func(i int, s *engine.Shard) {
+				c := c19Decode(i/c19MV, l, i%c19MV)
 				s.Transition()
 				held, sig, exp, obs := c19Eval(c)
 				acc, _, _ := c19Ref(c)
@@ -221,7 +239,7 @@ func init() {
 					s.Violate(engine.Violation{Sig: sig, Clause: sig, Index: off + int64(i), Kind: "C19", Case: c, Expected: exp, Observed: obs})
 				}
 			})
-			base += n * 4
+			base += n * c19MV
 		}
 		// history independence: the verdict on a calendar does not depend on what was validated before.
 		// Every ordered pair of the calendars with at most 1 component and a seventh of those with 2, back to back in one
@@ -232,11 +250,11 @@ func init() {
 			for k := 0; k < l; k++ {
 				n *= c19PerComp
 			}
-			for i := 0; i < n*4; i++ {
+			for i := 0; i < n*c19MV; i++ {
 				if l == 2 && i%7 != 0 {
 					continue // a seventh of the two-component calendars
 				}
-				small = append(small, c19Decode(i/4, l, i%4))
+				small = append(small, c19Decode(i/c19MV, l, i%c19MV))
 			}
 		}
 		r.Extra["history_pairs"] = len(small) * len(small)
